@@ -219,6 +219,9 @@ func genHostile(r *rand.Rand, id string) *Case {
 	case 0, 1:
 		c.RF = true
 		c.In = in[:r.Intn(len(in)+1)]
+		if r.Intn(2) == 0 {
+			c.Extra["rto"] = "1" // the read fault is an expired deadline (net.Error, Timeout() == true)
+		}
 	case 2, 3:
 		c.EOF = true
 		c.In = in[:r.Intn(len(in)+1)]
